@@ -137,6 +137,10 @@ counters!(
     runs_concurrent,
     runs_longhistory,
     runs_marathon,
+    runs_relative_path,
+    chdir_ops,
+    loads_naming_the_other_directory,
+    opens_of_the_other_directory,
     max_loads_in_one_run,
     max_ops_in_one_run,
     conc_threads,
@@ -352,6 +356,10 @@ struct Armed {
     persistent: Option<ErrKind>,
     opens: u32,
     bound: Vec<usize>,
+    /// Relative runs: the load names the file in the other directory (the decoy).
+    named_decoy: bool,
+    /// Images bound by opening a file *other* than the one the client's path names.
+    bound_other: Vec<usize>,
     reads: u64,
     budget: u64,
     budget_hit: bool,
@@ -375,6 +383,33 @@ pub struct World {
     unarmed_opens: u64,
     sched: Option<(Arc<Scheduler>, usize)>,
     shared: Option<Arc<SharedDisk>>,
+    /// Relative runs: where the process "is" (see `Op::Chdir`).
+    cwd: Option<CwdState>,
+}
+
+/// The working-directory dimension of a relative run: `home` holds the simulated file,
+/// `elsewhere` holds another image (the decoy) under the same file name.
+struct CwdState {
+    home: PathBuf,
+    elsewhere: PathBuf,
+    away: bool,
+    decoy: usize,
+}
+
+/// The working directory is process-wide: relative runs execute one at a time (every other run
+/// names its file by an absolute path and does not care where the process is).
+static CWD_LOCK: std::sync::Mutex<()> = std::sync::Mutex::new(());
+
+/// Restores the working directory (and releases the lock) however the run ends.
+struct CwdGuard {
+    back_to: PathBuf,
+    _lock: std::sync::MutexGuard<'static, ()>,
+}
+
+impl Drop for CwdGuard {
+    fn drop(&mut self) {
+        let _ = std::env::set_current_dir(&self.back_to);
+    }
 }
 
 impl World {
@@ -399,7 +434,42 @@ impl World {
     }
 
     fn open(&mut self, path: &Path, me: &Rc<RefCell<World>>) -> io::Result<Box<dyn Read>> {
-        if path != self.sim_path {
+        // A relative path names a file in the directory the process is in.
+        let resolved: std::borrow::Cow<Path> = match (&self.cwd, path.is_relative()) {
+            (Some(c), true) => {
+                let dir = if c.away { &c.elsewhere } else { &c.home };
+                let mut abs = dir.clone();
+                for comp in path.components() {
+                    match comp {
+                        std::path::Component::CurDir => {}
+                        std::path::Component::ParentDir => {
+                            abs.pop();
+                        }
+                        other => abs.push(other.as_os_str()),
+                    }
+                }
+                std::borrow::Cow::Owned(abs)
+            }
+            _ => std::borrow::Cow::Borrowed(path),
+        };
+        if let Some(c) = &self.cwd {
+            if *resolved == *c.elsewhere.join(self.sim_path.file_name().unwrap_or_default()) {
+                // The file of the same name in the other directory: served whole, without faults.
+                let decoy = c.decoy;
+                self.ctr.inc(C::opens_of_the_other_directory);
+                self.log.byte(b'y');
+                if let Some(a) = self.armed.as_mut() {
+                    a.opens += 1;
+                    if a.named_decoy {
+                        a.bound.push(decoy);
+                    } else {
+                        a.bound_other.push(decoy);
+                    }
+                }
+                return Ok(Box::new(io::Cursor::new(self.ctx.images[decoy].bytes().to_vec())));
+            }
+        }
+        if *resolved != *self.sim_path {
             // Not the simulated file: behave like the real file system.
             return std::fs::File::open(path).map(|f| Box::new(f) as Box<dyn Read>);
         }
@@ -443,7 +513,11 @@ impl World {
                 }
                 let now = self.cur();
                 let a = self.armed.as_mut().unwrap();
-                a.bound.push(now);
+                if a.named_decoy {
+                    a.bound_other.push(now);
+                } else {
+                    a.bound.push(now);
+                }
             }
         }
         let now = self.cur();
@@ -741,6 +815,7 @@ impl Sim {
             unarmed_opens: 0,
             sched: None,
             shared: None,
+            cwd: None,
         }));
         let w2 = world.clone();
         verif_seam::set_opener(Some(Box::new(move |p: &Path| {
@@ -895,6 +970,39 @@ impl Sim {
             }
         }
         let mut path = self.path();
+        // Relative runs: the process moves into the file's directory and the clients name the file
+        // by its bare name; a sibling directory holds the decoy under the same name (a real file
+        // too, for loaders that go round the seam).
+        let mut _cwd_guard: Option<CwdGuard> = None;
+        self.world.borrow_mut().cwd = None;
+        if sc.relative && self.world.borrow().real.is_some() && self.world.borrow().shared.is_none() {
+            let lock = CWD_LOCK.lock().unwrap_or_else(|e| e.into_inner());
+            let back_to = std::env::current_dir()
+                .unwrap_or_else(|e| std::panic::panic_any(HarnessError(format!("current_dir: {e}"))));
+            let home = path.parent().unwrap().to_path_buf();
+            let elsewhere = home.join("elsewhere");
+            let name = path.file_name().unwrap().to_os_string();
+            let decoy = sc.decoy % ctx.images.len();
+            let setup = (|| -> io::Result<()> {
+                std::fs::create_dir_all(&elsewhere)?;
+                // one decoy file per worker directory is enough: runs do not overlap there
+                for old in std::fs::read_dir(&elsewhere)? {
+                    let _ = std::fs::remove_file(old?.path());
+                }
+                let pool_dir = self.world.borrow().real.as_ref().unwrap().pool_dir.clone();
+                std::os::unix::fs::symlink(RealDisk::pool_file(&pool_dir, decoy), elsewhere.join(&name))?;
+                std::env::set_current_dir(&home)
+            })();
+            if let Err(e) = setup {
+                std::panic::panic_any(HarnessError(format!("setting up the relative-path world in {}: {e}", home.display())));
+            }
+            _cwd_guard = Some(CwdGuard { back_to, _lock: lock });
+            let mut w = self.world.borrow_mut();
+            w.cwd = Some(CwdState { home, elsewhere, away: false, decoy });
+            w.ctr.inc(C::runs_relative_path);
+            w.log.byte(b'~');
+            path = PathBuf::from(name);
+        }
         let mut clients: Vec<Option<Held>> = (0..sc.n_clients.max(1)).map(|_| None).collect();
         let mut sig = Fnv::default();
         sig.bytes(ctx.images[sc.initial].class.as_bytes());
@@ -944,6 +1052,25 @@ impl Sim {
                     w.log.u64(unix_s.map(|u| u + 1).unwrap_or(0));
                     if self.trace {
                         trace.push(format!("op{oi} SetClock -> {unix_s:?} s past the UNIX epoch"));
+                    }
+                }
+                Op::Chdir { away } => {
+                    let mut w = self.world.borrow_mut();
+                    if let Some(c) = w.cwd.as_mut() {
+                        c.away = *away;
+                        let dir = if *away { c.elsewhere.clone() } else { c.home.clone() };
+                        if let Err(e) = std::env::set_current_dir(&dir) {
+                            drop(w);
+                            std::panic::panic_any(HarnessError(format!("chdir {}: {e}", dir.display())));
+                        }
+                        w.ctr.inc(C::chdir_ops);
+                        w.log.byte(*away as u8);
+                    }
+                    if self.trace {
+                        trace.push(format!(
+                            "op{oi} Chdir {}",
+                            if *away { "to the other directory (same file name, another file)" } else { "back home" }
+                        ));
                     }
                 }
                 Op::Restart { client } => {
@@ -1022,6 +1149,8 @@ impl Sim {
                                     n_clients: 1,
                                     initial: t.image,
                                     stat_lies: 0,
+                        relative: false,
+                        decoy: 0,
                                     clock: clock_now,
                                     ops: vec![
                                         Op::Load {
@@ -1173,6 +1302,8 @@ impl Sim {
                             persistent: None,
                             opens: 0,
                             bound: Vec::new(),
+                            named_decoy: w.cwd.as_ref().map(|c| c.away).unwrap_or(false),
+                            bound_other: Vec::new(),
                             reads: 0,
                             budget,
                             budget_hit: false,
@@ -1215,11 +1346,24 @@ impl Sim {
                     // call of this load bound to; if the loader never opened the file (a cache),
                     // the image on disk when it was called or when it returned.
                     let mut candidates: Vec<usize> = a.bound.clone();
-                    if self.bypass || candidates.is_empty() {
+                    if a.named_decoy {
+                        // The path named the file in the other directory, which never changes.
+                        let decoy = self.world.borrow().cwd.as_ref().map(|c| c.decoy).unwrap_or(0);
+                        candidates = vec![decoy];
+                        self.world.borrow_mut().ctr.inc(C::loads_naming_the_other_directory);
+                    } else if self.bypass || candidates.is_empty() {
                         candidates.push(image_at_start);
                         candidates.push(image_at_end);
                     }
                     candidates.dedup();
+                    let wrong_file = if a.bound_other.is_empty() {
+                        String::new()
+                    } else {
+                        format!(
+                            " [the loader opened {} — a file other than the one the relative path names from the directory the process is in]",
+                            a.bound_other.iter().map(|&i| ctx.images[i].name.clone()).collect::<Vec<_>>().join(", ")
+                        )
+                    };
 
                     let mut w = self.world.borrow_mut();
                     let mk = |oracle: &str, m: String| Violation {
@@ -1306,7 +1450,7 @@ impl Sim {
                                         violation = Some(mk(
                                             "O1",
                                             format!(
-                                                "load returned Ok with a table that is not the opened file's: {first_err}; injected: {}",
+                                                "load returned Ok with a table that is not the opened file's: {first_err}{wrong_file}; injected: {}",
                                                 describe_fired(fired)
                                             ),
                                         ));
@@ -1507,6 +1651,8 @@ impl Sim {
             }
         }
         let nontrivial = any_fault_or_race && any_ok_load_checked;
+        self.world.borrow_mut().cwd = None;
+        drop(_cwd_guard);
         let mut w = self.world.borrow_mut();
         if nontrivial {
             w.ctr.inc(C::runs_nontrivial);
